@@ -2,11 +2,18 @@
    Statements only; proofs in Proofs/RedactWf.v, Proofs/RedactFacts.v.  Proved on
    the model of cockroachdb/redact: every printf call is well-formed for ARBITRARY
    byte contents of its arguments; for ASCII arguments the exact shape and the
-   congruence with the plain text.  The composition of the printed pieces by the
-   formatting engine (line splitting, entry layout) is decided on every run by the
-   byte-exact correspondence on hostile strings and the marker scanner on the
-   implementation (its proof is listed as missing in the evidence). *)
-From Errv Require Import Base.Str Redact.Markers Redact.Buffer Proofs.RedactFacts Proofs.RedactWf.
+   congruence with the plain text.
+   The WHOLE ENGINE (Proofs/EngineWf.v): the redactable %v / %s rendering of every error
+   -- every kind, any depth, arbitrary bytes in every message, hint, tag, detail, payload,
+   type name -- is well-formed (balanced, not nested, balanced within every line) provided
+   the redactable strings STORED in the visited nodes are well-formed (C06_engine_short);
+   the %+v rendering likewise under the entry "glue" condition (C06_engine_verbose).
+   These hypotheses are not cosmetic: C06_engine_refuted_* are the RECORDED FINDING
+   marker-assembled-from-truncated-utf8 (known_findings.txt), found by this proof and
+   then confirmed on the real code: errors built through the public API from strings with a
+   truncated marker prefix at the end of a line render with an unbalanced marker. *)
+From Errv Require Import Base.Str Redact.Markers Redact.Buffer Model.Err Model.Sem Model.Build Model.Report
+     Proofs.RedactFacts Proofs.RedactWf Proofs.EngineWf.
 
 (* ---- for ARBITRARY BYTES (marker bytes, newlines anywhere, NUL, invalid or
    truncated UTF-8), proofs in Proofs/RedactWf.v ---- *)
@@ -58,6 +65,49 @@ Print Assumptions C06_strip_congruent_partial.
 Theorem C06_safe_arg_partial : forall s, ascii s = true -> sprint_pieces [PSafe s] = s.
 Proof. exact sprint_safe_ascii. Qed.
 Print Assumptions C06_safe_arg_partial.
+
+(* ---- the whole formatting engine, every error, arbitrary bytes ---- *)
+Theorem C06_engine_short : forall e, sh_ok e ->
+  wf_red (fmt_red_short e) = true /\
+  Forall (fun l => wf_red l = true) (split_on nl (fmt_red_short e)).
+Proof. intros e H. split; [now apply red_short_wf | now apply red_short_lines_wf]. Qed.
+Print Assumptions C06_engine_short.
+
+Theorem C06_engine_verbose : forall e, vb_ok e -> glue_top e ->
+  wf_red (fmt_red_verbose e) = true /\
+  Forall (fun l => wf_red l = true) (split_on nl (fmt_red_verbose e)).
+Proof. intros e H G. split; [now apply red_verbose_wf | now apply red_verbose_lines_wf]. Qed.
+Print Assumptions C06_engine_verbose.
+
+(* RECORDED FINDING, as theorems about the faithful model (the same inputs fail on the code):
+   errors.New("\xe2\x80\n\xb9\na") -- every stored string is an output of the printer, %v is fine,
+   %+v has an unbalanced marker *)
+Theorem C06_engine_refuted_verbose :
+  exists e, fst (build (mkbenv []) (RNew bad_new_msg) bs_init) = Some e /\
+            vb_ok e /\ sh_ok e /\
+            wf_red (fmt_red_short e) = true /\
+            wf_red (fmt_red_verbose e) = false /\
+            glue_ns (sem e) = false.
+Proof. exact red_verbose_false. Qed.
+Print Assumptions C06_engine_refuted_verbose.
+
+(* errors.Newf("%v%s", errors.New("\xe2\n"), redact.Safe("\x80\xb9a")) renders as an opening marker + "a" *)
+Theorem C06_engine_refuted_short :
+  exists e, fst (build (mkbenv [])
+                   (RNewf [FErr VV (RNew [226; nl]); FSafeStr VS [128; 185; 97]]) bs_init) = Some e /\
+            fmt_red_short e = m_start ++ [97] /\
+            wf_red (fmt_red_short e) = false.
+Proof. exact red_short_false_built. Qed.
+Print Assumptions C06_engine_refuted_short.
+
+(* hostile contents everywhere else are fine: evaluated instance of the two theorems *)
+Example C06_engine_example :
+  let hidden := Leaf 2%positive (LErrString (m_start ++ [nl] ++ m_start)) in
+  let sec := Barrier 3%positive (sprint_pieces [PUnsafe (m_end ++ [226; 128])]) hidden in
+  let e := Wrap 5%positive (WPrefix (sprint_pieces [PUnsafe [226; 128; 185; nl; 97]; PLit (lit " x")]))
+             (Second 4%positive (Leaf 1%positive (LLeafError (sprint_pieces [PSafe [97; nl; 98; 226]]))) sec) in
+  wf_red (fmt_red_verbose e) = true /\ wf_red (fmt_red_short e) = true.
+Proof. exact red_verbose_wf_example. Qed.
 
 (* hostile contents: marker bytes and newlines in an unsafe argument, evaluated *)
 Example C06_example :
